@@ -60,11 +60,15 @@ HaloSrc(n, lo, hi, off, par, i) ==
          ELSE << 0, 0 >>)
     ELSE (IF hi = "wrap" THEN << i - n, 1 >> ELSE << 0, 0 >>)
 
-\* padded sample of component (ft, c) of the field F at p \in (-1..N)^3; halos of different axes compose
-PadVal(F(_, _), N, lo, hi, ft, c, p) ==
-    LET s0 == HaloSrc(N[1], lo[1], hi[1], U!YeeOffset(ft, c, 0), U!Parity(ft, c, 0, -1), p[1])
-        s1 == HaloSrc(N[2], lo[2], hi[2], U!YeeOffset(ft, c, 1), U!Parity(ft, c, 1, -1), p[2])
-        s2 == HaloSrc(N[3], lo[3], hi[3], U!YeeOffset(ft, c, 2), U!Parity(ft, c, 2, -1), p[3])
+\* Yee offsets and reflection parities of component (ft, c) along the three axes
+Offs(ft, c) == << U!YeeOffset(ft, c, 0), U!YeeOffset(ft, c, 1), U!YeeOffset(ft, c, 2) >>
+Pars(ft, c) == << U!Parity(ft, c, 0, -1), U!Parity(ft, c, 1, -1), U!Parity(ft, c, 2, -1) >>
+\* padded sample of a component with offsets off and parities par of the field F at p \in (-1..N)^3;
+\* halos of different axes compose
+PadVal(F(_, _), N, lo, hi, off, par, c, p) ==
+    LET s0 == HaloSrc(N[1], lo[1], hi[1], off[1], par[1], p[1])
+        s1 == HaloSrc(N[2], lo[2], hi[2], off[2], par[2], p[2])
+        s2 == HaloSrc(N[3], lo[3], hi[3], off[3], par[3], p[3])
         sg == s0[2] * s1[2] * s2[2]
     IN  IF sg = 0 THEN 0 ELSE sg * F(c, << s0[1], s1[1], s2[1] >>)
 
@@ -82,9 +86,10 @@ Coloc(G(_, _), W, ft, c, q) ==
 \* What an exact detector records for stored component m \in 1..6 at domain cell q (a cell of its region):
 \* E at the step; H as the mean of the previous and the current half step (the halo of a mean is the mean of the halos).
 ExactVal(FE(_, _), FHp(_, _), FH(_, _), N, W, lo, hi, m, q) ==
-    IF FT6[m] = "E"
-    THEN Coloc(LAMBDA c, p : PadVal(FE, N, lo, hi, "E", c, p), W, "E", CA6[m], q)
-    ELSE LET r == Coloc(LAMBDA c, p : PadVal(FHp, N, lo, hi, "H", c, p) + PadVal(FH, N, lo, hi, "H", c, p), W, "H", CA6[m], q)
+    LET ft == FT6[m]  cc == CA6[m]  off == Offs(ft, cc)  par == Pars(ft, cc) IN
+    IF ft = "E"
+    THEN Coloc(LAMBDA c, p : PadVal(FE, N, lo, hi, off, par, c, p), W, "E", cc, q)
+    ELSE LET r == Coloc(LAMBDA c, p : PadVal(FHp, N, lo, hi, off, par, c, p) + PadVal(FH, N, lo, hi, off, par, c, p), W, "H", cc, q)
          IN  << r[1], 2 * r[2] >>
 \* What a detector without interpolation records: the raw Yee samples of the current E and H.
 RawVal(FE(_, _), FH(_, _), m, q) == IF FT6[m] = "E" THEN << FE(CA6[m], q), 1 >> ELSE << FH(CA6[m], q), 1 >>
